@@ -81,7 +81,13 @@ func genValueCase(r *rand.Rand) Case {
 	if fs := valueFeats[kind]; 0 < len(fs) && r.IntN(6) == 0 {
 		feat = fw.Pick(r, fs)
 	}
-	return Case{Mode: "value", Kind: kind, Feat: feat, Src: genValue(r, kind, feat), Margins: []int{pickMargin(r), pickMargin(r)}}
+	src := genValue(r, kind, feat)
+	if kind == "list" && feat == "" && r.IntN(6) == 0 {
+		// (a list's own load form asks every element for its load form; a
+		// snapshot writes a list as quoted data: avoid-set construct var-nested-attr)
+		src = builtList(r)
+	}
+	return Case{Mode: "value", Kind: kind, Feat: feat, Src: src, Margins: []int{pickMargin(r), pickMargin(r)}}
 }
 
 func genCodeCase(r *rand.Rand, i int) Case {
@@ -172,6 +178,8 @@ func errClass(e *sl.Err) string {
 	return e.Class
 }
 
+var vecOpNames = []string{"vector-push", "vector-push-extend", "vector-pop", "adjust-array", "setf (fill-pointer", "setf (aref"}
+
 func execValue(x *fw.Ctx, c Case) {
 	x.Cover("value:" + c.Kind)
 	if c.Feat != "" {
@@ -193,6 +201,28 @@ func execValue(x *fw.Ctx, c Case) {
 	}
 	orig := deep(obj)
 	obs["original"] = clip(orig, 300)
+	vectorShapes(orig, func(k string) { x.Cover(k) })
+	for _, op := range vecOpNames {
+		if n := strings.Count(c.Src, "("+op+" "); 0 < n {
+			x.CoverN("vector-op:"+op, n)
+		}
+	}
+	// what slip's own accessors say about an array, before and after
+	accessors := func(o slip.Object) string {
+		switch o.(type) {
+		case *slip.Vector, *slip.Array:
+		default:
+			return ""
+		}
+		ps := slip.NewScope()
+		ps.Let(slip.Symbol("c19-v"), o)
+		res, err := evalForms(ps, arrayProbe)
+		if err != nil {
+			return "error:" + errClass(err)
+		}
+		return deep(res)
+	}
+	origAcc := accessors(obj)
 	form, err := loadFormOf(obj)
 	if err != nil {
 		x.Fail(sigOf(c, "loadform-error"), "%s: LoadForm of %s fails: %s", c.Src, clip(orig, 200), err)
@@ -232,6 +262,14 @@ func execValue(x *fw.Ctx, c Case) {
 		if got != orig {
 			x.Fail(sigOf(c, "not-equal"), "%s: original %s, rebuilt from load form text (margin %d) %s\ntext: %s", c.Src, clip(orig, 300), m, clip(got, 300), clip(text, 300))
 			return
+		}
+		if origAcc != "" {
+			if gotAcc := accessors(back); gotAcc != origAcc {
+				x.Fail(sigOf(c, "accessors"), "%s: (fill-pointer-p fill-pointer dimensions adjustable element-type rank contents) of the original %s, of the object rebuilt from the load form text (margin %d) %s\ntext: %s",
+					c.Src, clip(origAcc, 300), m, clip(gotAcc, 300), clip(text, 300))
+				return
+			}
+			x.Cover("array-accessors-equal")
 		}
 		x.Cover("value-round-trips")
 	}
